@@ -311,7 +311,9 @@ def run_case(case, scratch: Path | None = None):
     own = scratch is None
     root = Path(tempfile.mkdtemp(prefix='dsv-', dir=os.environ.get('VERIF_SCRATCH')))
     old = signal.signal(signal.SIGALRM, _alarm)
-    signal.setitimer(signal.ITIMER_REAL, float(case.get('timeout', TIMEOUT)))
+    # a history is as many compilations as it has steps: each gets the per-case allowance
+    allowance = float(case.get('timeout', TIMEOUT)) * max(1, len(case.get('steps') or case.get('invocations') or []))
+    signal.setitimer(signal.ITIMER_REAL, allowance)
     try:
         r = run_case_inner(case, root)
     except Timeout as ex:
